@@ -13,6 +13,8 @@
 import ast
 
 from vh.translate import TranslateError, _class, _func, _parse, coq_string, coq_strings
+from vh.translate import NORMALISE      # a handler that only warns is `pass` after _parse unless VERIF_TRANSLATE_RAW=1
+_WARN = 'pass' if NORMALISE else 'logger.warning(%W)'
 
 
 def _norm(node):
@@ -440,7 +442,7 @@ def item_flag_setters(repo, out):
         for which, got, pre, tmpl in (
                 ('getter', g, pre_g, ['selection=%s', 'return[nameforname,bitinzip(' + known + ',selection)ifbit]']),
                 ('setter', p, pre_p, ['names=_selection_to_list(names,all=' + known + ')', 'selection=np.zeros(8,dtype=np.uint8)',
-                                      'fornameinnames:try:selection[' + known + '.index(name)]=1exceptValueError:logger.warning(%W)',
+                                      'fornameinnames:try:selection[' + known + '.index(name)]=1exceptValueError:' + _WARN,
                                       'flagmask=%s', 'self._flags_select=flagmask'])):
             got = [s for s in got]
             # the warning call inside the try/except is kept by _strip_noise (it is the handler body): normalise it
@@ -476,7 +478,7 @@ def item_flag_setters(repo, out):
                 raise TranslateError('%s: %s._weights_keep getter has an unexpected body' % (rel, cname))
             got = [__import__('re').sub(r'logger\.warning\(.*\)$', 'logger.warning(%W)', _norm(s)) for s in _strip_noise(wp.body)]
             if got != [kw, 'names=_selection_to_list(names,all=known_weights)', 'selection=[]',
-                       'fornameinnames:try:selection.append(known_weights.index(name))exceptValueError:logger.warning(%W)',
+                       'fornameinnames:try:selection.append(known_weights.index(name))exceptValueError:' + _WARN,
                        'self._weights_select=selection']:
                 raise TranslateError('%s: %s._weights_keep setter has an unexpected body' % (rel, cname))
             wnames.append((fmt, [e.value for e in wn.elts]))
@@ -525,9 +527,12 @@ def item_h5_flag_transform(repo, out):
         got = [_norm(s) for s in _strip_noise(fn.body)]
         # the docstring of the inner function is an Expr inside the FunctionDef: strip it
         inner = [n for n in fn.body if isinstance(n, ast.FunctionDef) and n.name == 'transform']
-        if len(inner) != 1 or [_norm(s) for s in _strip_noise(inner[0].body)] not in (['returnnp.bool_(np.bitwise_and(flags_select[0],flags))'],) \
+        # flags_select is the one-element uint8 array self._flags_select: since katdal fix 418701b its element is used
+        # (`flags_select[0]`, so that a scalar selection keeps 0 dimensions); the older whole-array form is the same mask
+        if len(inner) != 1 or [_norm(s) for s in _strip_noise(inner[0].body)] not in (
+                ['returnnp.bool_(np.bitwise_and(flags_select[0],flags))'], ['returnnp.bool_(np.bitwise_and(flags_select,flags))']) \
                 or [a.arg for a in inner[0].args.args] != ['flags', 'keep']:
-            raise TranslateError('%s: %s.flags: transform is not np.bool_(np.bitwise_and(flags_select[0], flags))' % (rel, cname))
+            raise TranslateError('%s: %s.flags: transform is not np.bool_(np.bitwise_and(flags_select, flags))' % (rel, cname))
         rest = [_norm(s) for s in _strip_noise(fn.body) if s is not inner[0]]
         if rest != ['flags_select=self._flags_select', "extract=LazyTransform('extract_flags',transform,dtype=bool)",
                     'returnself._vislike_indexer(self._flags,extract)']:
